@@ -205,6 +205,19 @@ func c11(ctx *core.Ctx) {
 		var opsLog []string
 		ctx.Case(hi, fmt.Sprintf("router=%s options=%v", router, options))
 		probes := m.probes()
+		seenURL := map[string]bool{}
+		for _, pr := range probes {
+			seenURL[pr.Method+" "+pr.Path] = true
+		}
+		instPath := func(t string) string {
+			segs := strings.Split(t, "/")
+			for i, sg := range segs {
+				if strings.HasPrefix(sg, "{") {
+					segs[i] = "v7"
+				}
+			}
+			return strings.Join(segs, "/")
+		}
 		for oi := 0; oi < nops; oi++ {
 			// choose an applicable operation
 			kind := ""
@@ -309,6 +322,10 @@ func c11(ctx *core.Ctx) {
 						src := s.Routes[r.Intn(len(s.Routes))]
 						mr.Method, mr.Path = src.Method, src.Path
 						mr.Produces = []string{r.Pick([]string{restful.MIME_JSON, restful.MIME_XML, "text/plain"})}
+					} else if len(s.Routes) > 0 && r.Chance(1, 4) {
+						// a sub path that repeats the service's own prefix: relative path == full path of an existing route
+						src := s.Routes[r.Intn(len(s.Routes))]
+						mr.Method, mr.Path = src.Method, fullPath(s.Root, src.Path)
 					}
 					desc = fmt.Sprintf("Route(%q, %s %q produces=%v id=%d)", s.Root, mr.Method, mr.Path, mr.Produces, mr.ID)
 					opsLog = append(opsLog, desc)
@@ -388,6 +405,18 @@ func c11(ctx *core.Ctx) {
 				}
 			}()
 			ctx.Eval(1)
+			// every route URL the history has ever declared stays in the probe set (also after its removal)
+			for _, sv := range m.Svcs {
+				for _, rr := range sv.Routes {
+					u := instPath(fullPath(sv.Root, rr.Path))
+					for _, method := range []string{"GET", "POST"} {
+						if k := method + " " + u; !seenURL[k] && strings.HasPrefix(u, "/") {
+							seenURL[k] = true
+							probes = append(probes, rt.Req{Method: method, Path: u})
+						}
+					}
+				}
+			}
 			doc := map[string]interface{}{"router": router, "options_filter": options, "history": opsLog, "model": m}
 			if pan != nil {
 				ctx.Violation(hi, "c11:op-panics:"+kind, fmt.Sprintf("%s panicked: %v", desc, pan), doc)
